@@ -44,6 +44,9 @@ type scriptT struct {
 	High  string            `json:"high"` // which hub has the higher SKI
 	Ops   []opT             `json:"ops"`
 	Burst int               `json:"burst"` // resolver events per appearance (avahi reports one per address)
+	// a slow network: an accepted connection reaches the hub only after this many milliseconds, so what the users do next falls
+	// into the time a dial takes (TCP, TLS and websocket handshake are never instantaneous outside a test bench)
+	SlowDial int `json:"slowDial"`
 }
 
 type evT struct {
@@ -144,6 +147,7 @@ type proxy struct {
 	total   atomic.Int32
 	blocked atomic.Bool
 	onOpen  func()
+	slow    time.Duration
 }
 
 func newProxy(target string) *proxy {
@@ -169,6 +173,9 @@ func newProxy(target string) *proxy {
 				p.onOpen()
 			}
 			go func() { // the accept loop goes on at once
+				if p.slow > 0 {
+					time.Sleep(p.slow)
+				}
 				d, err := net.Dial("tcp", target)
 				if err != nil {
 					_ = c.Close()
@@ -544,6 +551,7 @@ func runScript(s scriptT) obsT {
 		}
 		ports[name] = freePort()
 		n.px = newProxy(fmt.Sprintf("127.0.0.1:%d", ports[name]))
+		n.px.slow = time.Duration(s.SlowDial) * time.Millisecond
 		hn := name
 		n.px.onOpen = func() { l.add(hn, "StreamOpen", "") } // a stream towards hub hn: its peer dialled
 		n.prov = &provider{n: n}
@@ -856,7 +864,7 @@ func runScript(s scriptT) obsT {
 	// trust and the approvals (the rest is in Conns)
 	hubLevel := o.Events[:0:0]
 	for _, e := range o.Events {
-		if e.C == 0 || (!e.Old && (e.Ev == "c.q" || (e.Ev == "c.enter" && e.V == "approve"))) {
+		if e.C == 0 || (!e.Old && (e.Ev == "c.q" || e.Ev == "c.new" || (e.Ev == "c.enter" && e.V == "approve"))) {
 			hubLevel = append(hubLevel, e)
 		}
 	}
